@@ -56,15 +56,17 @@ Proof. exact format_strip_roundtrip_coarse. Qed.
     of fragment_iter (strip_bonding_descriptors through the strip component's strip_correct, then
     read_fragment_cgsmiles: the reader component's reader_sim_lin_nobrace + its post-processing) reads as the chain
     numbered 0..n with the same names' attributes and bond orders, post-processed with exactly the descriptor dict
-    the chain carried.  The writer takes names from `fragname` (open class coarse_node_renamed is outside);
-    trees with a symbol on a branch edge are outside (the strip grammar has no symbol before "("). *)
+    the chain carried.  The graph written is the one read_fragment_cgsmiles builds (`fragname` = the fragment's
+    name on every node, own name in `atomname`, descriptors in `bonding`), written as write_cgsmiles_fragments does
+    since fix 6d8cc68 (name_attr='atomname'): the read-back nodes carry the same atomname, bonding and fragname.
+    Trees with a symbol on a branch edge are outside (the strip grammar has no symbol before "("). *)
 Theorem C08_coarse_chain_roundtrip : forall fo A a0 fragname k0 x0 (l : list (Z * Z * nodex)),
   fragment_node_parser fo [] = Ok a0 ->
-  NoDup (k0 :: rest_keys (mk_restx l)) -> (forall k, In k (rest_keys (mk_restx l)) -> k0 <= k) ->
+  NoDup (k0 :: rest_keys (mk_restx fragname l)) -> (forall k, In k (rest_keys (mk_restx fragname l)) -> k0 <= k) ->
   okn x0 -> Forall (fun y => 0 <= fst (fst y) <= 4 /\ okn (snd y)) l ->
   Forall (fun n => name_ok fo n = true) (path_names (fst x0) (plainl l)) ->
   Forall (fun n => parse_graph_base_node fo n = Ok (A n)) (path_names (fst x0) (plainl l)) ->
-  exists txt, write_graph false (fun _ => true) (path_graph k0 (fattrs x0) (mk_restx l)) [] = Ok txt
+  exists txt, write_graph_by (S "atomname") false (fun _ => true) (path_graph k0 (fattrs fragname x0) (mk_restx fragname l)) [] = Ok txt
     /\ read_coarse_fragment fo fragname txt
        = (let sp := cspec a0 sinit x0 l in
           let g := nx_build A (fst x0) (plainl l) in
@@ -76,7 +78,8 @@ Theorem C08_coarse_chain_roundtrip : forall fo A a0 fragname k0 x0 (l : list (Z 
           Ok (update_nodes_from g5 (node_updates (s_ann sp)))).
 Proof. exact coarse_chain_roundtrip. Qed.
 Example C08_coarse_chain_nonvacuous :
-  write_graph false (fun _ => true) (path_graph 3 (fattrs ex_x0) (mk_restx ex_l)) [] = Ok (S "[#A][$a]=[>]=[#B].[!x].[#PEO][#A]#[<]")
+  write_graph_by (S "atomname") false (fun _ => true) (path_graph 3 (fattrs (S "X") ex_x0) (mk_restx (S "X") ex_l)) []
+  = Ok (S "[#A][$a]=[>]=[#B].[!x].[#PEO][#A]#[<]")
   /\ match read_coarse_fragment (fun _ => None) (S "X") (S "[#A][$a]=[>]=[#B].[!x].[#PEO][#A]#[<]") with
      | Ok g => map (fun n => (nk n, aget (S "atomname") (na n), aget (S "bonding") (na n), aget (S "fragname") (na n))) g
                = [(0, Some (VStr (S "A")), Some (VList [VStr (S "$a1"); VStr (S ">2")]), Some (VStr (S "X")));
